@@ -3,7 +3,7 @@ from vcheck import sexp
 
 ID = "C20"
 LEVEL = "proof"
-LEAN_IMPORTS = ["WM.Props.C20Varint", "WM.Props.C20IdSets", "WM.Props.C20NumLists", "WM.Props.C20Hash", "WM.Props.C20HashBytes", "WM.Props.C20Sort", "WM.Props.C20Compound", "WM.Props.C20Base85"]
+LEAN_IMPORTS = ["WM.Props.C20Varint", "WM.Props.C20IdSets", "WM.Props.C20NumLists", "WM.Props.C20NumPack", "WM.Props.C20Hash", "WM.Props.C20HashBytes", "WM.Props.C20Sort", "WM.Props.C20Compound", "WM.Props.C20Base85"]
 _IDSET_THEOREMS = """bitset_iter_sorted bitset_mem ondisk_mem bitset_to_disk_ondisk bitset_add bitset_discard bitset_ofSource bitset_update
 bitset_intersection_update bitset_difference_update bitset_union bitset_intersection bitset_difference
 bitset_invert bitset_clear bitset_trim bitset_resize bitset_len bitset_bool bitset_first bitset_last
@@ -16,11 +16,13 @@ bitset_logic_or bitset_logic_and bitset_logic_andnot bitset_logic_trimmed bitset
 idset_pool_step idset_pool_run
 delta_roundtrip delta_roundtrip_inv fixed_roundtrip fixed_get varints_roundtrip growable_contents growable_fits
 growable_extend growable_thresholds growable_nat_never_fails growable_readback
+gints_roundtrip gints_layout gints_rejects simple16_word simple16_roundtrip simple16_rejects simple16_get
+deltas_roundtrip gints_deltas_roundtrip simple16_deltas_roundtrip varints_deltas_roundtrip fixed_deltas_roundtrip
 hash_build_total hash_writer_formats hash_writer_rejects hash_lookup hash_get_contains hash_items
 ordered_writer_rejects ordered_writer_formats ordered_closest_key ordered_items_from
 struct_roundtrip struct_rejects struct2_roundtrip structfile_read_write structfile_string_roundtrip
 hash_record_bytes hash_file_open hash_lookup_bytes hash_items_bytes
-extsort_sorted_perm extsort_reduce_bound extsort_rejects compound_member_bytes compound_directory
+extsort_sorted_perm extsort_reduce_bound extsort_rejects compound_member_bytes compound_directory compound_file_bytes
 compound_writer_streams subfile_read subfile_read_all subfile_read_chunks b85_roundtrip b85_chars_ascending""".split()
 THEOREMS = (["WM.C20.varint_roundtrip", "WM.C20.zigzag_roundtrip", "WM.C20.signed_varint_roundtrip",
              "WM.C20.encode_bytes"] + ["WM.C20." + t for t in _IDSET_THEOREMS])
@@ -44,8 +46,10 @@ PARTIAL = {
                                 "pickle inside the extras region) are an opaque blob below 2^31 bytes; the reader is "
                                 "proved on the bytes the (format-checked) writer produced, with the default `length`; a "
                                 "corrupt file (negative numbers in a struct) is outside the model",
-    "WM.C20.compound_member_bytes": "directory kept as a list: the header back-patch, reading the directory position "
-                                    "and the pickle round trip are not modelled; the member view of a non-mmapped file "
+    "WM.C20.compound_member_bytes": "directory kept as a list and the two pickles (directory, options) an opaque blob: "
+                                    "the pickle round trip is trusted; the 12 header bytes, their back-patch by write_dir "
+                                    "and the reader's read_long/read_int/seek are modelled as bytes and proved "
+                                    "(compound_file_bytes, below 2^63 / 2^31); the member view of a non-mmapped file "
                                     "(SubFile.read(n)/read()/chunked reading) is modelled and proved separately "
                                     "(subfile_read, subfile_read_all, subfile_read_chunks) for non-negative positions; "
                                     "SubFile.seek(where, 2) computes length - where (io files: length + where; equal only "
@@ -61,14 +65,17 @@ RULE = ("varint: every n < 2^14 plus boundary-biased samples up to 2^70 (non-tri
         "0..9 incl. untrimmed ones, BitSet(source,size), SortedIntSet) where results of union/intersection/difference "
         "(method and operator forms) and of the in-place variants are fed back as operands on either side (non-trivial: "
         "a binary op's right operand was the result of an earlier binary op and an observation was non-empty). number lists: delta lists, GrowableArray append sequences across 255/256, 65535/65536, "
-        "2^31, 2^32, 2^63 (non-trivial: a retype happened), fixed/varint/Simple16/GInts lists (non-trivial: >= 2 distinct "
-        "numbers). hash files: 0..5000 keys, 8 hash functions incl. constant and 2-3-valued ones, start offsets 0, 3, "
+        "2^31, 2^32, 2^63 (non-trivial: a retype happened), fixed/varint/Simple16/GInts lists incl. numbers above maxint "
+        "(non-trivial: >= 2 distinct numbers), single Simple16 words (runs fitting one of the widths 1..28 with outliers, any input "
+        "offset; arbitrary 32-bit words decompressed), GInts/Simple16 read_nums on truncated and arbitrary files, Simple16.get "
+        "at every index of 1..60 numbers after 0..7 foreign bytes. hash files: 0..5000 keys, 8 hash functions incl. constant and 2-3-valued ones, start offsets 0, 3, "
         "~2^16, ~2^31, ~2^32 (non-trivial: >= 2 pairs with a bucket collision or duplicate key); byte level: 0..60 pairs "
         "after 0/1/3/17/300 foreign bytes, whole file compared byte by byte and the model reader run on the real bytes; "
         "StructFile numbers for b/B/H/i/I/q/Q around every power-of-two boundary (non-trivial: inside the format, "
         "more than one byte), strings across 127/128 and 16383/16384. external sort: run sizes "
         "1..7, maxfiles 2..4 (non-trivial: more runs than maxfiles). compound: 1..8 members / interleaved sub-stream "
-        "writes with buffer sizes 0..64 (non-trivial: >= 2 members with data / a flush happened). "
+        "writes with buffer sizes 0..64 (non-trivial: >= 2 members with data / a flush happened); finished files up to 6000 "
+        "bytes compared byte by byte with the model (header back-patch, 0/3/17 bytes before the compound data). "
         "distinct = distinct canonical (component, input)")
 
 
@@ -198,7 +205,6 @@ TRUSTED = [
     "CPython bisect/heapq.merge/sorted/set/array/struct/pickle/marshal/BytesIO (modelled by their specifications)",
     "pickled extras of the hash file and the compound directory pickle: opaque (the hash file's header, records, "
     "table slots, directory and trailing length are modelled as bytes: WM.HashBytes, whole files compared byte by byte)",
-    "Simple16 and GInts codecs: not modelled, run end-to-end only",
 ]
 EXPLANATION = (
     "Every run: (1) axiom audit of the theorems; (2) correspondence: generated op programs / number lists / "
@@ -213,15 +219,18 @@ MANIFEST = {
                   "ReverseIdSet/MultiIdSet operation is the set operation on `toSet`; HashWriter always terminates and "
                   "HashReader.all(k) is the list of values written under k in insertion order (open addressing over 2n "
                   "slots), ordered files answer closest_key/items_from by binary search; varint, delta, fixed-width, "
-                  "growable-array and base-85 codecs round-trip; the external sort returns a sorted permutation; compound "
+                  "growable-array, GInts, Simple16 and base-85 codecs round-trip; the external sort returns a sorted permutation; compound "
                   "members and sub-streams are byte-identical. Models are tied to whoosh by differential runs on every check.",
     "level_note": "Partial: SortedIntSet.invert (generic DocIdSet.invert_update keeps members >= size) is proved only for sets "
                   "below `size` (recorded finding, exact behaviour proved as sis_invert_exact). ReverseIdSet/MultiIdSet lack "
                   "before/after/copy/union/... (NotImplementedError: rev_unsupported, multi_unsupported, 16 recorded findings); "
                   "ReverseIdSet outside [0,limit) is described by rev_*_exact/_out_of_range. Hash files: record-level model with "
                   "the struct-format limits as checked preconditions (buildE/buildOrderedE), position index read from the "
-                  "GrowableArray bytes. Not modelled: Simple16/GInts, "
-                  "byte-level struct/pickle layout, temp files of the sort, RoaringIdSet, b85encode/b85decode (broken on this tree: recorded findings / out of the "
+                  "GrowableArray bytes. GInts and Simple16 are modelled loop by loop and proved (gints_roundtrip/_layout/_rejects: "
+                  "key byte + 1..4 bytes per number, groups of four and a shorter last group; simple16_word/_roundtrip/_rejects/_get: "
+                  "whatever layout _compress picks, _decompress returns the numbers taken, for every list below 2^28; get(i) as "
+                  "repaired by the proposed fix commit - on a tree without it get() raises TypeError, the recorded finding). Not modelled: "
+                  "pickle layout, temp files of the sort, RoaringIdSet, b85encode/b85decode (broken on this tree: recorded findings / out of the "
                   "property's list); FieldedOrderedHash* is not modelled but run end-to-end on generated multi-field files "
                   "(three recorded findings, each with a proposed fix commit). Trusted: Lean kernel "
                   "+ propext/Quot.sound/Classical.choice, CPython stdlib pieces modelled by specification.",
